@@ -190,7 +190,7 @@ class Recorder(object):
 
 def run_case(prog, cfg=None, faults=None, cleanups=None, hooks=False, record_events=False,
              formatters=None, keep_model=False, reporters=None, async_steps=False, texts=None,
-             step_extra=None):
+             step_extra=None, probe_status=False):
     """faults: {k: "exc"|"assert"} k-th hook invocation raises.
     cleanups: {trigger: [(cid, raising, layer)]}, trigger = ("hook", name, path|None) | ("step", path, idx)
     formatters: callable(config, o2p) -> list of formatter objects (in addition to the recorder)
@@ -249,6 +249,11 @@ def run_case(prog, cfg=None, faults=None, cleanups=None, hooks=False, record_eve
                     register_cleanups(ctx, ("step", spath, idx[0] if idx else -1))
                 if step_extra:
                     step_extra(ctx, kind, spath, n)
+                if probe_status:
+                    for attr in ("feature", "rule", "scenario"):
+                        obj = getattr(ctx, attr, None)
+                        if obj is not None:
+                            obj.status
                 if kind == "fail":
                     assert False, "boom %d" % n
                 if kind == "error":
@@ -307,6 +312,12 @@ def run_case(prog, cfg=None, faults=None, cleanups=None, hooks=False, record_eve
                     else:
                         ref = None
                     obs["hooks"].append((name, ref))
+                    if probe_status:
+                        # user code may read .status at any time (it is a caching property)
+                        for attr in ("feature", "rule", "scenario"):
+                            obj = getattr(ctx, attr, None)
+                            if obj is not None:
+                                obj.status
                     if cleanups and "tag" not in name and "step" not in name:
                         register_cleanups(ctx, ("hook", name, ref))
                     f = faults.get(k)
